@@ -33,6 +33,18 @@ type c21Req struct {
 type c21Plan struct {
 	Reqs      []c21Req `json:"reqs"`
 	Concurrent bool    `json:"concurrent"`
+	Verify    bool     `json:"verify_certificates"`    // per-host certificates, one shared client tls.Config with RootCAs and no ServerName
+	Transport bool     `json:"custom_transport"`       // HostClients get a Transport that delegates to fasthttp.DefaultTransport
+	MaxConns  int      `json:"max_conns,omitempty"`    // 0: default
+	WaitMs    int      `json:"max_conn_wait_timeout_ms,omitempty"`
+	SrvCloses bool     `json:"server_answers_connection_close,omitempty"`
+}
+
+// c21Delegate is the smallest custom RoundTripper: it hands everything to the default transport.
+type c21Delegate struct{}
+
+func (c21Delegate) RoundTrip(hc *fasthttp.HostClient, req *fasthttp.Request, resp *fasthttp.Response) (bool, error) {
+	return fasthttp.DefaultTransport.RoundTrip(hc, req, resp)
 }
 
 func init() { scenarios["C21"] = scenC21 }
@@ -46,11 +58,11 @@ func (zeroReader) Read(p []byte) (int, error) {
 	return len(p), nil
 }
 
-func c21TLSConfig() *tls.Config {
-	seed := bytes.Repeat([]byte{7}, ed25519.SeedSize)
+func c21TLSConfig(names ...string) *tls.Config {
+	seed := bytes.Repeat([]byte{7 + byte(len(names[0])) + names[0][1]}, ed25519.SeedSize)
 	key := ed25519.NewKeyFromSeed(seed)
-	tmpl := &x509.Certificate{SerialNumber: big.NewInt(1), Subject: pkix.Name{CommonName: "sim"}, NotBefore: time.Date(1990, 1, 1, 0, 0, 0, 0, time.UTC), NotAfter: time.Date(2100, 1, 1, 0, 0, 0, 0, time.UTC),
-		DNSNames: []string{"h1.test", "h2.test"}, KeyUsage: x509.KeyUsageDigitalSignature, ExtKeyUsage: []x509.ExtKeyUsage{x509.ExtKeyUsageServerAuth}}
+	tmpl := &x509.Certificate{SerialNumber: big.NewInt(int64(1 + names[0][1])), Subject: pkix.Name{CommonName: "sim-" + names[0]}, NotBefore: time.Date(1990, 1, 1, 0, 0, 0, 0, time.UTC), NotAfter: time.Date(2100, 1, 1, 0, 0, 0, 0, time.UTC),
+		DNSNames: names, KeyUsage: x509.KeyUsageDigitalSignature | x509.KeyUsageCertSign, IsCA: true, BasicConstraintsValid: true, ExtKeyUsage: []x509.ExtKeyUsage{x509.ExtKeyUsageServerAuth}}
 	der, err := x509.CreateCertificate(zeroReader{}, tmpl, tmpl, key.Public(), key)
 	if err != nil {
 		panic(err)
@@ -59,7 +71,11 @@ func c21TLSConfig() *tls.Config {
 }
 
 func scenC21(e *Env) func() {
-	p := &c21Plan{Concurrent: e.Chance(40)}
+	p := &c21Plan{Concurrent: e.Chance(40), Verify: e.Chance(50), Transport: e.Chance(25)}
+	if e.Chance(35) {
+		// pressure on the pool: waiters are served by dials made on their behalf
+		p.Concurrent, p.MaxConns, p.WaitMs, p.SrvCloses = true, 1, Pick(e, 200, 5000, 60000), e.Chance(70)
+	}
 	n := e.Range(2, 8)
 	for i := 0; i < n; i++ {
 		scheme := Pick(e, "s", "p")
@@ -72,7 +88,12 @@ func scenC21(e *Env) func() {
 
 func c21Run(e *Env, p *c21Plan) {
 	ips := map[string]string{"h1.test": "10.21.0.1", "h2.test": "10.21.0.2"}
-	srvCfg := c21TLSConfig()
+	srvCfgs := map[string]*tls.Config{"h1.test": c21TLSConfig("h1.test", "h2.test"), "h2.test": c21TLSConfig("h1.test", "h2.test")}
+	if p.Verify {
+		srvCfgs = map[string]*tls.Config{"h1.test": c21TLSConfig("h1.test"), "h2.test": c21TLSConfig("h2.test")}
+	}
+	type hello struct{ endpoint, sni string }
+	var hellos []hello
 	var mu sync.Mutex
 	type seen struct {
 		id, host string
@@ -94,13 +115,20 @@ func c21Run(e *Env, p *c21Plan) {
 			}
 			fs := NewFakeServer(e, ip, port)
 			if isTLS {
-				fs.Wrap = func(c net.Conn) net.Conn { return tls.Server(c, srvCfg) }
+				cfg := srvCfgs[host].Clone()
+				cfg.GetConfigForClient = func(chi *tls.ClientHelloInfo) (*tls.Config, error) {
+					mu.Lock()
+					hellos = append(hellos, hello{host, chi.ServerName})
+					mu.Unlock()
+					return nil, nil
+				}
+				fs.Wrap = func(c net.Conn) net.Conn { return tls.Server(c, cfg) }
 			}
 			fs.Plan = func(id string, req *http.Request) srvAction {
 				mu.Lock()
 				log = append(log, seen{id, host, isTLS})
 				mu.Unlock()
-				a := srvAction{Status: 200, BodyLen: 12, Framing: "cl"}
+				a := srvAction{Status: 200, BodyLen: 12, Framing: "cl", ConnClose: p.SrvCloses}
 				r := byID[strings.TrimSuffix(id, "-r")]
 				if r != nil && r.Redirect != "" && !strings.HasSuffix(id, "-r") {
 					// redirect once; the redirected request is tagged by the scheme it must use
@@ -140,7 +168,20 @@ func c21Run(e *Env, p *c21Plan) {
 		return e.Net.Dial(tcpAddr("10.21.9.9", pn), ip+":"+prt)
 	}
 	cliCfg := &tls.Config{InsecureSkipVerify: true, MinVersion: tls.VersionTLS12, MaxVersion: tls.VersionTLS12, Rand: zeroReader{}}
-	cl := &fasthttp.Client{Dial: dial, TLSConfig: cliCfg, ReadTimeout: time.Minute, MaxIdleConnDuration: 30 * time.Second}
+	if p.Verify {
+		// one caller-supplied configuration shared by every host: trusted roots, no ServerName
+		pool := x509.NewCertPool()
+		for _, h := range []string{"h1.test", "h2.test"} {
+			c, err := x509.ParseCertificate(srvCfgs[h].Certificates[0].Certificate[0])
+			if err != nil {
+				panic(err)
+			}
+			pool.AddCert(c)
+		}
+		cliCfg = &tls.Config{RootCAs: pool, MinVersion: tls.VersionTLS12, MaxVersion: tls.VersionTLS12, Rand: zeroReader{}}
+	}
+	wait := time.Duration(p.WaitMs) * time.Millisecond
+	cl := &fasthttp.Client{Dial: dial, TLSConfig: cliCfg, ReadTimeout: time.Minute, MaxIdleConnDuration: 30 * time.Second, MaxConnsPerHost: p.MaxConns, MaxConnWaitTimeout: wait}
 	hostClients := map[string]*fasthttp.HostClient{}
 	getHC := func(host string, isTLS bool) *fasthttp.HostClient {
 		key := fmt.Sprint(host, isTLS)
@@ -151,7 +192,10 @@ func c21Run(e *Env, p *c21Plan) {
 		if isTLS {
 			port = "443"
 		}
-		hc := &fasthttp.HostClient{Addr: host + ":" + port, IsTLS: isTLS, Dial: dial, TLSConfig: cliCfg, ReadTimeout: time.Minute}
+		hc := &fasthttp.HostClient{Addr: host + ":" + port, IsTLS: isTLS, Dial: dial, TLSConfig: cliCfg, ReadTimeout: time.Minute, MaxConns: p.MaxConns, MaxConnWaitTimeout: wait}
+		if p.Transport {
+			hc.Transport = c21Delegate{}
+		}
 		hostClients[key] = hc
 		return hc
 	}
@@ -231,6 +275,14 @@ func c21Run(e *Env, p *c21Plan) {
 				kind = "http-over-tls"
 			}
 			e.Violation(kind, "request %s was received by the %s endpoint of %s", s.id, map[bool]string{true: "TLS (443)", false: "plaintext (80)"}[s.tls], s.host)
+			return
+		}
+	}
+	// own host: every TLS session was opened for the host whose endpoint it reached
+	for _, h := range hellos {
+		e.Ob(1)
+		if h.sni != h.endpoint {
+			e.Violation("sni-mismatch", "a TLS connection to %s:443 was opened with server name %q", h.endpoint, h.sni)
 			return
 		}
 	}
